@@ -1,8 +1,8 @@
 CHECK = {
     "gen": [{"pkg": "extract_c07", "out": "lean/ClusterVerif/Gen/C07.lean"}],
     "suites": [
-        suite("auth", "c07", 60, 600, stdin=True, args=["-suite", "auth"], timeout={"quick": 600, "thorough": 1800}),
-        suite("rep", "c07", 6, 150, stdin=True, args=["-suite", "rep"], timeout={"quick": 600, "thorough": 2400}),
+        suite("auth", "c07", 160, 1600, stdin=True, args=["-suite", "auth"], timeout={"quick": 600, "thorough": 1800}),
+        suite("rep", "c07", 8, 160, stdin=True, args=["-suite", "rep"], timeout={"quick": 600, "thorough": 2400}),
     ],
     "lean_sources": ["ClusterVerif/Model/C07.lean", "ClusterVerif/Spec/C07.lean", "ClusterVerif/Gen/C07.lean",
                      "ClusterVerif/Lemmas/C07.lean", "Driver/C07.lean"],
